@@ -44,10 +44,10 @@ type engine interface {
 	gc(i int)
 	canGC(lag int) int // block the collector may remove now (0: none)
 	restart()
-	after()               // flush, read back, sweep
-	ok(id int) bool       // last sweep: admitted by every node of the world
-	onChain(id int) bool  // per the blocks this world added
-	pooled() []int        // ids in the reference node's own pool
+	after()              // flush, read back, sweep
+	ok(id int) bool      // last sweep: admitted by every node of the world
+	onChain(id int) bool // per the blocks this world added
+	pooled() []int       // ids in the reference node's own pool
 	emit(ev map[string]any)
 }
 
